@@ -543,7 +543,14 @@ func cmdConcX(args []string) error {
 					}
 				}(g)
 			}
-			time.Sleep(120 * time.Millisecond)
+			// at least 120 ms and at least 20 reloads (on a busy machine the reloader may be starved for a while), at most 5 s
+			for began := time.Now(); ; {
+				time.Sleep(20 * time.Millisecond)
+				el := time.Since(began)
+				if (el >= 120*time.Millisecond && atomic.LoadInt64(&reloads) >= 20) || el >= 5*time.Second {
+					break
+				}
+			}
 			stop.Store(true)
 			wg.Wait()
 			emit(map[string]interface{}{"k": "cx", "scenario": "pull-auth-during-reloads", "reloads": reloads, "asked": asked, "otherTokenAccepted": wrongAccept, "ownTokenRefused": wrongRefuse})
